@@ -3,7 +3,7 @@
 // Contracts for package profile, checked by /verif/govc (comment-only; compiled only with -tags verif).
 package profile
 
-//@ prelude c07 c01
+//@ prelude c07 c01 c12
 
 //@ func Genvar(hint string) string
 //@   ensures [C07:gen-prefix] hasPrefix(result, "gen_" + hint + "_")
@@ -18,6 +18,7 @@ package profile
 //@   ensures [C07:starts-at-zero] result.counter == 0 && len(result.vars) >= 1
 
 //@ func ParseMessageExpression(rawExpression string) Message
+//@   ensures-assumed [C12:A-REGEXP] result == parseMsg(rawExpression)
 //@   ensures [C13:no-placeholder-unchanged] len(result.Variables) == 0 ==> result.Expression == rawExpression
 //@   loop 1 /* for _, v := range matches */
 //@     invariant [C13] len(variables) == #i && (len(matches) == 0 ==> expression == rawExpression)
@@ -121,3 +122,24 @@ package profile
 
 //@ func (rs RuleSlice) Len() int
 //@   ensures [C01:len] result == len(rs)
+
+// ---- complete results (C12) -----------------------------------------------------------------------------------------
+
+//@ func (c VariableCardinality) RuleName() string
+//@   ensures [C12:component-name] (c.Operator == GTEQ ==> result == "atLeast") && (c.Operator == LTEQ ==> result == "atMost") && (c.Operator == EQ ==> result == "exactly") && result != ""
+
+//@ func (c VariableCardinality) String() string
+//@   ensures [C01:comparison] (c.Operator == GTEQ ==> result == ">= " + itoa(c.Value)) && (c.Operator == LTEQ ==> result == "<= " + itoa(c.Value)) && (c.Operator == EQ ==> result == "= " + itoa(c.Value))
+
+//@ func newExpression(negated bool, name string, varGenerator *VarGenerator) Expression
+//@   requires varGenerator != nil
+//@   ensures [C12:fields] result.Negated == negated && result.Name == name && result.Variable != nil
+
+//@ func newTopLevelExpression(negated bool, name string, messageExpression string, level string, targetClass string, varGenerator *VarGenerator) TopLevelExpression
+//@   requires varGenerator != nil
+//@   ensures [C12:fields] result.Negated == negated && result.Name == name && result.Level == level && result.ClassGenerator == targetClass && result.Message == parseMsg(messageExpression) && result.Variable != nil
+
+//@ func ParseExpression(name string, data *y.Yaml, level string, varGenerator *VarGenerator) (Rule, error)
+//@   requires data != nil && varGenerator != nil
+//@   ensures [C12:named-and-levelled] result1 == nil ==> (is(result0, profile.TopLevelExpression) && result0.(profile.TopLevelExpression).Name == name && result0.(profile.TopLevelExpression).Level == level && !result0.(profile.TopLevelExpression).Negated)
+//@   ensures [C12:message-as-written-or-default] let n = asref(*yaml.Node, yamlValueFor(ref(old(deref(data).data)), box(string, "message"))) :: (result1 == nil ==> result0.(profile.TopLevelExpression).Message == parseMsg(ite(n != nil && old(deref(n).Kind) == 8 && old(deref(n).Tag) == "!!str", old(deref(n).Value), "Validation error")))
